@@ -222,6 +222,13 @@ def run(ctx) -> None:
         f"all token strings with <= {n_max} operators (optional parentheses around each operator "
         "sub-expression), distinct leaves; all leaf-kind assignments for <= 2 operators over the name sets"
     )
+    # (a2) detection names that read like condition text, used as the identical condition
+    for names, cond in ((["1 of them", "a", "b"], "1 of them"), (["all of them", "a", "b"], "all of them"), (["1 of sel_*", "sel_a", "sel_b"], "1 of sel_*"),
+                        (["sel_a and sel_b", "sel_a", "sel_b"], "sel_a and sel_b"), (["not sel_a", "sel_a", "b"], "not sel_a"),
+                        (["a or b", "a", "b", "c"], "a or b"), (["(a)", "a"], "(a)"), (["not a", "a"], "not  a")):
+        idx += 1
+        if idx % ctx.nshards == ctx.shard:
+            ctx.do({"names": names, "cond": cond})
     # (c) random larger expressions
     ctx.hyp(random_cases(), 400 if ctx.tier == "quick" else 4000)
     # (d) large sizes
